@@ -441,6 +441,16 @@ Theorem c07_hardlink_names_keep_content : forall b pkgs i me x h y app,
 Proof. exact hardlink_names_keep. Qed.
 Print Assumptions c07_hardlink_names_keep_content.
 
+(* the same in the flat model the correspondence runs: whatever a file, link or
+   hard-link header does, it does to the node under ITS OWN path; in particular a
+   later package that re-ships the target of a hard link leaves the link's name
+   with the bytes, mode and owner it had *)
+Theorem c07_reshipped_target_keeps_link : forall b pkgs i me s h s' app q,
+  step b pkgs i me s h = IOk (s', app) -> h_kind h <> KDir -> q <> h_path h ->
+  fs_get (s_fs s') q = fs_get (s_fs s) q.
+Proof. exact step_only_own_path. Qed.
+Print Assumptions c07_reshipped_target_keeps_link.
+
 (* ... and the flat model of the theorems above (a hard link = a copy of the
    node) is exactly what a reader of the names-and-heap model sees, step by
    step, errors included: the whole install gives the same result *)
